@@ -955,6 +955,3 @@ m('C08', 'jtvec: misfit not evaluated first (defect F34)', SIMS,
 m('C08', 'jtvec: layered mode not refused (defect F34)', SIMS,
   "        if self.layered:\n            msg = \"`jtvec` is not implemented for `layered`.\"\n            raise NotImplementedError(msg)\n\n", "",
   'C08.V4.weights')
-m('C10', 'magnetic dipole: loop values for azimuth/elevation/length (defect F35)', ELEC,
-  "                self._azimuth, self._elevation = azimuth, elevation\n                self._length = length\n", "",
-  'C10.GE.formats')
